@@ -62,4 +62,8 @@ CLAIMED["C08"] = dict(
   text="Generated concrete programs with ~30% of their numeric arguments replaced by generated variable expressions (scalars, arrays, items, arithmetic and functions) and 1-3 assignments; template.build(**v) compared by canonical snapshot with the same calls issued directly with harness-evaluated values; template immutability; build(v1),build(v2),build(v1) reproducibility; mappable registers against an own register construction. Exploration.",
   note="Trusted: harness expression evaluator (Python/numpy arithmetic); call logs are not part of 'the same sequence'.",
   technique="property-based testing: generated programs, differential (parametrized build vs direct construction) + metamorphic repeat-build relations")
+CLAIMED["C04"] = dict(
+  text="Generated programs (all operations, calling styles, devices, register kinds; EOM/DMM/SLM/XY) rebuilt from their successful calls, plus parametrized variants with assignments: to_abstract_repr succeeds, own jsonschema validation, decoded sequence equal by canonical snapshot (device field by field, register, timeline, pulses, phase trackers, measurement, SLM, field), built sequences equal for every assignment, idempotent encoding; the same for the legacy codec on built-in and virtual devices. Exploration.",
+  note="Trusted: jsonschema and the schema files; Python json float round trip. Call logs and channel order are not compared. Non-exportable constructs excluded by construction (variable CustomWaveform samples, interpolator kwargs).",
+  technique="property-based testing: generated programs, round-trip oracle on canonical snapshots + independent schema validation")
 NOT_YET = {}
